@@ -33,6 +33,11 @@ def run(tier):
     # base case of the induction over nesting: the plain-float instances return what the standard library returns
     from . import c06
     c06.float_instances(chk, F)
+    # the closed forms combine values of the INNER number type with float constants (`x - 1`, `x / 2`, `x -= 1`): for nested types these are
+    # the dual-with-float operator forms of the inner type — every generated form is the operation with the float lifted to a constant
+    from . import c08
+    for ty in TYPES:
+        c08.check_type(chk, F, ty, thorough=False)
     chk.floor("chain rule bodies", chk.analysed.get("chain rule bodies", 0), 8)
     chk.floor("closed-form bodies", chk.analysed.get("closed-form bodies", 0), 8 * 24)
     chk.floor("derivative links", chk.analysed.get("derivative links", 0), 384)
